@@ -166,6 +166,42 @@ def mviews_strided_vectors():
                       "format": fmt.lstrip("@<="), "ro": 1 if mv.readonly else 0, "madero": 0, "vals": vals, "elems": elems, "stable": 1, "strided": cname + "." + comp})
 
 
+def masked_components():
+    """Component views of a MASKED vector array: v[mask].x holds the x of the selected elements, and writing through it
+    reaches exactly those elements."""
+    for cname, comps_ in (("V2fArray", "xy"), ("V3fArray", "xyz"), ("V3dArray", "xyz"), ("V4fArray", "xyzw"), ("V3iArray", "xyz")):
+        cls = lookup(cname)
+        if cls is None:
+            continue
+        n = 6
+        mask = [0, 1, 0, 0, 1, 1]
+        for ci, comp in enumerate(comps_):
+            v = cls(n)
+            for i in range(n):
+                v[i] = elem(cname, 10 * i + 1)
+            m = imath.IntArray(n)
+            for i in range(n):
+                m[i] = mask[i]
+            try:
+                ref = v[m]
+                c = getattr(ref, comp)
+                got = [ival(c[i]) for i in range(len(c))]
+                exc = 0
+            except AttributeError:
+                continue
+            except BaseException:  # noqa
+                got, exc = [], 1
+            want = [ival(comps(v[i])[ci]) for i in range(n) if mask[i]]
+            wrote = []
+            if not exc:
+                try:
+                    c[1] = 99
+                    wrote = [i for i in range(n) if ival(comps(v[i])[ci]) == 99]
+                except BaseException:  # noqa
+                    wrote = [-1]
+            emit({"e": "maskcomp", "cls": cname, "comp": comp, "mask": mask, "exc": exc, "out": got, "want_from_elements": want, "wrote": wrote})
+
+
 def huge_indices():
     """An integer index that does not fit the C index type (2**64, -2**64, 2**63) is out of range like any other: the access
     raises and the array is left alone."""
@@ -721,6 +757,7 @@ def main():
     mviews()
     mviews_strided()
     mviews_strided_vectors()
+    masked_components()
     huge_indices()
     frombufs()
     arrays2d(rnd, thorough)
